@@ -98,7 +98,7 @@ def run(ctx):
         return i, j
 
     # ---------------- 1. constraint function, Jacobian, first guess, Cholesky -------------
-    for q in range(ctx.n(300, 4000)):
+    for q in range(ctx.n(300, 10000)):
         n = rng.choice(G.NS_ALL + [rng.randint(8, 180)])
         th = G.to_rad(G.grid_deg(n, rng.choice([0.0, C.dyadic(rng, -180, 180, 10)])))
         if q < 5:
@@ -131,7 +131,7 @@ def run(ctx):
         i2, j2 = add({"op": "init", "m": G.fl(m)}, ["init " + " ".join(G.fl(m))])
         post.append(("fn", i0, j0, i1, j1, ids, i2, j2, kind, lk, dk, n, th, lam, m, d, h))
 
-    for q in range(ctx.n(200, 3000)):
+    for q in range(ctx.n(200, 8000)):
         B = [[C.dyadic(rng, -1, 1, 8) for _ in range(4)] for _ in range(4)]
         kindc = rng.choice(["spd", "spd", "spd", "indefinite", "neg-first", "covariance"])
         A = [[sum(B[i][k] * B[j][k] for k in range(4)) for j in range(4)] for i in range(4)]
@@ -176,7 +176,7 @@ def run(ctx):
                                                                 C.flist(d), C.flist(th))])
                     post.append(("hard", i, j, hc, mir, k, n, th, m, g))
     # ---------------- 3./4. fidelity, solver agreement, rotation and mirror ---------------
-    ncase = ctx.n(24, 80)
+    ncase = ctx.n(24, 160)
     for q in range(ncase):
         n = NS[q % 4]
         dirs = G.grid_deg(n)
